@@ -52,7 +52,9 @@ func ForLookup(addr string) (string, error) {
 		}
 	}
 
-	mbox = strings.ToLower(norm.NFC.String(mbox))
+	// Lower-casing can produce a sequence that has a precomposed form its
+	// upper-case counterpart lacks ("J" + U+030C), normalize again.
+	mbox = norm.NFC.String(strings.ToLower(norm.NFC.String(mbox)))
 
 	if domain == "" {
 		return mbox, nil
@@ -82,7 +84,7 @@ func CleanDomain(addr string) (string, error) {
 	if err != nil {
 		return addr, err
 	}
-	uDomain = strings.ToLower(norm.NFC.String(uDomain))
+	uDomain = norm.NFC.String(strings.ToLower(norm.NFC.String(uDomain)))
 
 	if domain == "" {
 		return mbox, nil
